@@ -576,6 +576,7 @@ type FuncContract struct {
 	File        string
 	Line        int
 	SpecOnly    bool
+	DeclPkg     string // package of the contract file declaring it ("" for .spec files)
 	Props       []string // property tags for the ensures clauses, optional
 	NoSweep     map[string]bool
 	NoFrame     bool
@@ -720,7 +721,7 @@ func (cs *Contracts) LoadFile(path, pkgPath string, specOnly bool) {
 			pkgPath = rest
 		case "func":
 			ref := qualifyRef(rest, pkgPath)
-			cur = &FuncContract{Ref: ref, Loops: map[string]*LoopSpec{}, File: path, Line: l.line, SpecOnly: specOnly, Trusted: specOnly, NoSweep: map[string]bool{}}
+			cur = &FuncContract{Ref: ref, Loops: map[string]*LoopSpec{}, File: path, Line: l.line, SpecOnly: specOnly, Trusted: specOnly, NoSweep: map[string]bool{}, DeclPkg: pkgPath}
 			if _, dup := cs.Funcs[ref]; dup {
 				fail(l.line, "duplicate contract for %s", ref)
 			}
